@@ -435,6 +435,14 @@ impl Model {
             return Err(self.constraint_validation_errors[0].clone());
         }
         
+        // Check if memory limit was exceeded during model building
+        if self.memory_limit_exceeded {
+            return Err(SolverError::MemoryLimit {
+                usage_mb: Some(self.estimated_memory_mb() as usize),
+                limit_mb: self.config.max_memory_mb.map(|x| x as usize),
+            });
+        }
+        
         // Record start time for initialization time tracking
         let init_start = std::time::Instant::now();
         
@@ -595,6 +603,14 @@ impl Model {
         // Check for constraint validation errors first
         if !self.constraint_validation_errors.is_empty() {
             return Err(self.constraint_validation_errors[0].clone());
+        }
+        
+        // Check if memory limit was exceeded during model building
+        if self.memory_limit_exceeded {
+            return Err(SolverError::MemoryLimit {
+                usage_mb: Some(self.estimated_memory_mb() as usize),
+                limit_mb: self.config.max_memory_mb.map(|x| x as usize),
+            });
         }
         
         // Record start time for initialization time tracking
